@@ -3,7 +3,7 @@
    No Extract Constant / Extract Inductive directive beyond those of ExtrOcamlBasic. *)
 From Coq Require Extraction.
 From Coq Require Import ExtrOcamlBasic.
-From RX Require Import Val Syntax World Step Oracle Oracle2 SubjK Oracle3 ConcGate ConcQueue ConcToVec ConcSubject ConcHist ConcComb ConcObserveOn LockOrder.
+From RX Require Import Val Syntax World Step Oracle Oracle2 SubjK Oracle3 ConcGate ConcQueue ConcToVec ConcSubject ConcHist ConcComb ConcObserveOn LockOrder ConcTimeout.
 Extraction Language OCaml.
 
-Extraction "../ml/rxmodel.ml" run_scenario init_world run step uenc udec is_sub val_eqb obs_of_run c01_oracle ulog users contract_ok c02_oracle c02_loc_oracle c05_oracle c06_oracle c10_oracle c13_oracle c10k_oracle c13k_oracle c03_oracle c03_mloc_oracle c04_oracle sk_run gstep ginit gate_oracle qstep q0 tstep tv0 closure_ok sstep sinit consecutive got hstep hinit mgstep mginit zstep zinit astep ainit kstep kinit ostep oinit edges_ok edge_ok.
+Extraction "../ml/rxmodel.ml" run_scenario init_world run step uenc udec is_sub val_eqb obs_of_run c01_oracle ulog users contract_ok c02_oracle c02_loc_oracle c05_oracle c06_oracle c10_oracle c13_oracle c10k_oracle c13k_oracle c03_oracle c03_mloc_oracle c04_oracle sk_run gstep ginit gate_oracle qstep q0 tstep tv0 closure_ok sstep sinit consecutive got hstep hinit mgstep mginit zstep zinit astep ainit kstep kinit ostep oinit edges_ok edge_ok spec_timeout spec_delay.
